@@ -73,10 +73,12 @@ pub fn decode_case04(tape: &[u32], root: usize, alias: bool, sep: u8, seed: u64,
             // one case in five names the selections with digits that are not their position
             // (/1/ is the selection called "1", wherever it stands)
             let digit_names = g.tape.chance(1, 5);
+            let case_names = !digit_names && g.tape.chance(1, 8);
             for i in 0..g.tape.below(3) {
                 let k = *g.tape.pick(LEAF_KINDS);
                 let e = g.expr(k, 2, &env);
-                let name = if digit_names { format!("{}", (i + 1) % 3) } else { format!("s{}", i) };
+                // (or, one case in ten, names that differ only in letter case)
+                let name = if digit_names { format!("{}", (i + 1) % 3) } else if case_names { ["k", "K", "\u{e9}"][i % 3].to_string() } else { format!("s{}", i) };
                 priors.push((e, name.clone()));
                 env.sels.push((name, k));
             }
